@@ -21,8 +21,10 @@ EXPLANATION = (
     'is sorted(X) with X iterating unique keys (dict, set, MergedDict, set expression) or a helper that sorts a '
     'set; every attr_list implementation returns such a value; R3 the cursor marker cannot reach the proposals: '
     'the proposals are un-marked/filtered at the sink, or every identifier taken from the marked tree is '
-    'un-marked where names are created, or no marker is spliced into the text. Mark transparency (a relation '
-    'between two analyses of every file and position) is NOT decided.')
+    'un-marked where names are created, or no marker is spliced into the text; R4 the visitors that locate the '
+    'cursor-marked node continue into every expression child when the mark is not on the visited node (a cursor below '
+    'a call or subscript must still be found). Mark transparency as a whole (a relation between two analyses of every '
+    'file and position) is NOT decided.')
 TECHNIQUE = 'derivation (def-use) analysis of assist + regex-literal boundary-set computation + sink sanitiser rule'
 
 ASSIST = 'supp/assistant.py'
@@ -171,6 +173,48 @@ def run(repo, res):
               'identifier, and assist returns the names unfiltered: `self.ba|r = 1` proposes `ba__supp_mark__r`. Un-mark or '
               'filter at the sink, or un-mark every identifier where names are created',
               sample='marker spliced=%s, sink sanitised=%s, sources sanitised=%s' % (spliced, sink_clean, source_clean))
+    # ---- R4 the cursor node is found wherever it is --------------------------------------------------------------
+    # (a necessary condition of cursor transparency: the mark finders must reach every position of the tree)
+    UTIL = 'supp/util.py'
+    nfind = 0
+    for cname in ('get_marked_atribute_visitor', 'get_marked_name_visitor', 'get_any_marked_name_visitor',
+                  'get_marked_import_visitor'):
+        k = repo.klass(UTIL, cname)
+        for m in k.body:
+            if not (isinstance(m, ast.FunctionDef) and m.name.startswith('visit_')):
+                continue
+            nfind += 1
+            kind = m.name[6:]
+            # children of this node kind that can contain further expressions
+            from .. import grammar as G
+            kids = [f.name for f in G.fields(kind) if f.sort in ('expr', 'stmt') or f.sort in G.NODE_FIELDS and f.sort not in ('expr_context',)] \
+                if kind in G.NODE_FIELDS else []
+            kids = [f for f in kids if f not in ('ctx',)]
+            # statements executed when the mark is not here: top-level statements of the method that are not the mark test
+            top = [st for st in m.body if not (isinstance(st, ast.Expr) and isinstance(st.value, ast.Constant))]
+            descends = set()
+            for st in top:
+                if isinstance(st, ast.Expr) and isinstance(st.value, ast.Call):
+                    f = unparse(st.value.func)
+                    if f == 'self.generic_visit':
+                        descends.update(kids)
+                    if f == 'self.visit' and st.value.args:
+                        a = unparse(st.value.args[0])
+                        if a.startswith('node.'):
+                            descends.add(a[5:])
+                if isinstance(st, ast.For) and unparse(st.iter).startswith('node.') and '[' not in unparse(st.iter):
+                    descends.add(unparse(st.iter)[5:])
+            need = [f for f in kids if G.SORT_OF.get(kind) == 'expr' or kind in ('Import', 'ImportFrom')]
+            if kind in ('Import', 'ImportFrom'):
+                need = ['names']
+            if kind == 'Name':
+                need = []
+            missing = [f for f in need if f not in descends]
+            res.check('C12-R4', '%s.%s keeps searching' % (cname, m.name), not missing, UTIL, m.lineno,
+                      '%s.%s does not continue into %s when the mark is not on this node: a cursor below it is never found, so '
+                      'assist/location answer as if there were no cursor (empty proposals)' % (cname, m.name, missing),
+                      sample='%s.%s descends into %s' % (cname, m.name, sorted(descends) or 'nothing (leaf)'))
+    res.count('mark_finder_methods', nfind, floor=5)
     res.note('the `from pkg.mod|` branch derives the prefix by rpartition on " " and "."; the line is known to start with '
              '"from " and to contain no " import ", so the text is a dotted module path (note only).')
     res.assumptions.extend(['stdlib re implements the pattern literal (constant folding of a pure stdlib call)',
